@@ -313,6 +313,34 @@ var c12Templates = []sim.Template{
 		return []*sim.Action{act("login", 0, v, "ok"), act("hooknext", 0, -9, "", "mode", pickS(s.R, "handled", "handled", "error")), act(kv, 0, -9, first),
 			act("login", 1, v, "ok"), act(kv, 1, -9, again), act(kv, 1, -9, again), act(kv, 1, -9, "ok")}
 	}},
+	{Name: "one-time-secret-login-while-the-save-fails", F: func(s *sim.Sim) []*sim.Action {
+		// the storer's Save fails in the request that presents a recovery code (or an OTP): whatever the
+		// error handler answers, a session may only come out of it if the secret is gone from storage
+		if !s.Cfg.Has("auth") {
+			return nil
+		}
+		if len(s.Cfg.TwoFA) > 0 && s.R.Intn(3) != 0 {
+			k := s.Cfg.TwoFA[s.R.Intn(len(s.Cfg.TwoFA))]
+			v := findAcct(s, func(u *world.User) bool {
+				return u.Confirmed && ((k == "totp" && u.TOTPSecretKey != "" && u.SMSPhone == "") || (k == "sms" && u.SMSPhone != "" && u.TOTPSecretKey == ""))
+			})
+			if v < 0 {
+				return nil
+			}
+			kv := k + "_validate"
+			return []*sim.Action{act("login", 0, v, "ok"), act("faultnext", 0, -9, "", "op", "Save"), act(kv, 0, -9, "recovery"), act("visit", 0, -9, "", "route", "/protected/bare"),
+				act("login", 1, v, "ok"), act(kv, 1, -9, "recovery_spent"), act(kv, 1, -9, "recovery")}
+		}
+		if !s.Cfg.Has("otp") {
+			return nil
+		}
+		v := findAcct(s, func(u *world.User) bool { return u.TOTPSecretKey == "" && u.SMSPhone == "" && u.Confirmed })
+		if v < 0 {
+			return nil
+		}
+		return []*sim.Action{act("login", 0, v, "ok"), act("otp_add", 0, -9, ""), act("faultnext", 1, -9, "", "op", "Save"), act("otp_login", 1, v, "ok"),
+			act("visit", 1, -9, "", "route", "/protected/bare"), act("otp_login", 2, v, "spent"), act("otp_login", 2, v, "ok")}
+	}},
 	{Name: "totp-same-code-in-another-spelling", F: func(s *sim.Sim) []*sim.Action {
 		// the code that just completed a login, presented again with surrounding whitespace or a separator
 		if !s.Cfg.Has2FA("totp") || !s.Cfg.Has("auth") {
